@@ -30,6 +30,8 @@ def FactsOK : Bool :=
   C39.overrideKeyLowered && C39.overrideSliceOp == "set:SPLIT sep=," &&
   C39.overridePluginOp == "[]string{VALUE} key-lowered" &&
   C39.readConfigSeq == ["read-files", "apply-overrides"] &&
+  -- cli.Version.UnmarshalFlag assigns IsGTE on every call: the value of a layer does not depend on the layers below it
+  C39.versionResetsGTE &&
   -- every representative scalar option has a pre-populated default or is a bool that defaults to false
   (lookup C39.scalarDefaults "build.lang").isSome && (lookup C39.scalarDefaults "build.config").isSome &&
   (lookup C39.scalarDefaults "please.numoldversions").isSome && (lookup C39.scalarDefaults "build.xattrs").isSome &&
@@ -176,6 +178,19 @@ example : (effective kindOf lowOf (initOf C39.scalarDefaults C39.prepopulatedSli
     ((readOrder mode ["repo", "local"] ["p"]).map fun n =>
       if n = ("repo", none) then some [⟨0, some "r"⟩] else if n = ("repo", some "p") then some [⟨0, some "rp"⟩]
       else if n = ("local", none) then some [⟨0, some "l"⟩] else none) []).map (·.single 0) = some (some "l") := by decide
+
+/-- `[please] version` is an ordinary single-valued option of the table (kind `str`): with the facts of this run
+    (`versionResetsGTE`) its effective value is the one written in the last layer that sets it, `>=` prefix included —
+    an instance of `C39_single_last_wins`. -/
+theorem C39_version_is_single : isSingleKind (kindOf 13) = true ∧ nameOf 13 = "please.version" := by decide
+
+/-- `cli.Version` before the repair, as (IsGTE, version): `UnmarshalFlag` only ever turned the flag on. -/
+def versionSetOld (cur new : Bool × String) : Bool × String := (cur.1 || new.1, new.2)
+
+/-- Before the repair a `>=` from a lower layer survived a higher layer that set a plain version: the result
+    `>=17.0.0` is a value no source set.  (Statement about the OLD code, `versionResetsGTE = false`.) -/
+theorem C39_old_version_gte_sticky :
+    versionSetOld (versionSetOld (false, "") (true, "1.2.3")) (false, "17.0.0") = (true, "17.0.0") := by decide
 
 /-- `-o` beats every file: the last override for the option decides (Go ranges over a map, so "last" is
     only meaningful when it is the only one; see `C39_override_order_irrelevant`). -/
